@@ -17,6 +17,9 @@ sys.setrecursionlimit(1000000)
 BARE_VARIANTS = {'Less': 'Ordering', 'Equal': 'Ordering', 'Greater': 'Ordering', 'None': 'Option', 'Some': 'Option', 'Ok': 'Result', 'Err': 'Result'}
 
 
+TRUNCATED = [False]      # set when a scenario's exploration was cut by its budget: a 'discharged' is then downgraded
+
+
 class State:
     __slots__ = ('store', 'pc', 'events', 'meta')
 
@@ -66,6 +69,8 @@ class Interp:
         self.nsym = 0
         self.uf = {}
         self.fuel_limit = 4000
+        self._blk = 0
+        self.deadline = None          # wall-clock end of the exploration budget (set by the pipeline drivers)
         self.closures = {}
         self.closures_all = {}
         self.by_last = {}
@@ -635,6 +640,10 @@ class Interp:
         while True:
             self._cur_bb = bb
             fuel[0] += 1
+            self._blk += 1
+            if self.deadline is not None and (self._blk & 255) == 0 and time.time() > self.deadline:
+                TRUNCATED[0] = True
+                raise BudgetExhausted('exploration budget used up')
             if fuel[0] > self.fuel_limit:
                 raise Inconclusive('unwinding bound (%d blocks) hit in %s' % (self.fuel_limit, fn.name[:60]))
             stmts, term = parsed_block(fn, bb)
